@@ -709,14 +709,20 @@ func (c *Ctx) ruleOneFilter() {
 			if l.Kind == "rangeloop" {
 				continue
 			}
-			if sc := litCall(l); sc != nil && !l.Pos && sc.Call.StaticCallee() != nil && FuncName(sc.Call.StaticCallee()) == "(*config.Config).ShouldSkipFile" &&
-				P.Desc(sc.Call.Args[2]) == fd && sc.Call.Args[0] == P.resolveOne(call, ff) {
-				skipOK = true
-				continue
-			}
-			if sc := litCall(l); sc != nil && !l.Pos && sc.Call.StaticCallee() != nil && FuncName(sc.Call.StaticCallee()) == "(*config.Config).ShouldSkipFile" && P.Desc(sc.Call.Args[2]) == fd {
-				skipOK = true
-				continue
+			if sc := litCall(l); sc != nil && !l.Pos && sc.Call.StaticCallee() != nil && FuncName(sc.Call.StaticCallee()) == "(*config.Config).ShouldSkipFile" {
+				// asked about the yielded file itself (the *ast.File argument; a file name computed by the
+				// caller has to be a name of that file)
+				for _, a := range sc.Call.Args[1:] {
+					if typeStr(a.Type()) == "*go/ast.File" && P.Desc(a) == fd {
+						skipOK = true
+					}
+					if d := P.Desc(a); typeStr(a.Type()) == "string" && strings.Contains(d, "call((*go/ast.File).Pos; "+fd+")") && strings.HasSuffix(d, "go/token.Position.Filename)") {
+						skipOK = true // the file's name, computed here (which of its names: SKIP-SHAPE/OWN-NAME)
+					}
+				}
+				if skipOK {
+					continue
+				}
 			}
 			extra = append(extra, short(l.String()))
 		}
@@ -767,11 +773,18 @@ func (c *Ctx) ruleSkipShape() {
 		return
 	}
 	name := FuncName(fn)
-	fileD := P.Desc(fn.Params[2])
+	// the file asked about: the *ast.File parameter; when the caller hands in a name instead, the name is followed to
+	// the callers (a parameter is described by its arguments) and has to be the name of some file there
+	fileD := ""
+	for _, prm := range fn.Params[1:] {
+		if typeStr(prm.Type()) == "*go/ast.File" {
+			fileD = P.Desc(prm) + ")"
+		}
+	}
 	adjusted := ""
 	isFilename := func(v ssa.Value) bool {
 		d := P.Desc(v)
-		if !(strings.HasPrefix(d, "field(call((*go/token.FileSet).Position") && strings.Contains(d, "call((*go/ast.File).Pos; "+fileD+")") && strings.HasSuffix(d, "go/token.Position.Filename)")) {
+		if !(strings.HasPrefix(d, "field(call((*go/token.FileSet).Position") && strings.Contains(d, "call((*go/ast.File).Pos; "+fileD) && strings.HasSuffix(d, "go/token.Position.Filename)")) {
 			return false
 		}
 		if !c.unadjustedPosition(v) {
@@ -928,4 +941,153 @@ func (c *Ctx) unadjustedPosition(v ssa.Value) bool {
 		}
 		return P.RootsAll(bb, isFor)
 	})
+}
+
+// ruleExcludeConsumers (C08, eighth wave): exclude-checks has one consumer - the global tokens of the ignore set,
+// asked at the report gate with the violation's own code.
+//
+//	EXCLUDE-FLOW/ONLY-GATE: the list Config.ExcludeChecks is read only to be copied (config.New / With*), rendered
+//	as a flag default (strings.Join), measured (len) and handed to IgnoreSet.AddModuleIgnore; an element that is
+//	compared, or the list handed to anything else, is a second consumer: S then changes more than the gate does
+//	(annotations not read, walks skipped), so the result is no longer "the unrestricted run minus the matching codes".
+//	EXCLUDE-FLOW/PROBE: a question IgnoreSet.Contains(K, <no position>) - "is K excluded for the whole project" -
+//	may guard work only when K covers every code that work can report: K is ALL or the one category of all report
+//	sites reachable from the function that asks.
+func (c *Ctx) ruleExcludeConsumers() {
+	P := c.P
+	n := 0
+	var confined func(v ssa.Value, depth int) string
+	confined = func(v ssa.Value, depth int) string {
+		if depth > 8 || v.Referrers() == nil {
+			return ""
+		}
+		for _, r := range *v.Referrers() {
+			switch u := r.(type) {
+			case *ssa.DebugRef:
+			case *ssa.Phi:
+				if s := confined(u, depth+1); s != "" {
+					return s
+				}
+			case *ssa.ChangeType:
+				if s := confined(u, depth+1); s != "" {
+					return s
+				}
+			case *ssa.Store:
+				// into a field of a Config under construction / a local that is then handed on
+				if fa, ok := u.Addr.(*ssa.FieldAddr); ok && typeStr(deref(fa.X.Type())) == "config.Config" {
+					continue
+				}
+				return "stored at " + P.Pos(u.Pos())
+			case *ssa.BinOp:
+				// nil comparison of the list
+				if isNilConst(u.X) || isNilConst(u.Y) {
+					continue
+				}
+				return "compared at " + P.Pos(u.Pos())
+			case *ssa.Call:
+				if bi, ok := u.Call.Value.(*ssa.Builtin); ok && (bi.Name() == "len" || bi.Name() == "cap") {
+					continue
+				}
+				cal := u.Call.StaticCallee()
+				if cal == nil {
+					return "handed to a dynamic call at " + P.Pos(u.Pos())
+				}
+				switch FuncName(cal) {
+				case "(*util.IgnoreSet).AddModuleIgnore", "config.New", "strings.Join":
+					continue
+				}
+				return "handed to " + FuncName(cal) + " at " + P.Pos(u.Pos())
+			default:
+				return fmt.Sprintf("used by %T at %s", r, P.Pos(r.Pos()))
+			}
+		}
+		return ""
+	}
+	for _, fn := range P.ModFuncs {
+		allInstrs(fn, func(b *ssa.BasicBlock, ins ssa.Instruction) {
+			var val ssa.Value
+			switch x := ins.(type) {
+			case *ssa.UnOp:
+				fa, ok := x.X.(*ssa.FieldAddr)
+				if !ok || x.Op != token.MUL || typeStr(deref(fa.X.Type())) != "config.Config" || fieldName(deref(fa.X.Type()), fa.Field) != "ExcludeChecks" {
+					return
+				}
+				val = x
+			case *ssa.Field:
+				if typeStr(x.X.Type()) != "config.Config" || fieldName(x.X.Type(), x.Field) != "ExcludeChecks" {
+					return
+				}
+				val = x
+			default:
+				return
+			}
+			n++
+			cons := fmt.Sprintf("%s#read%d", FuncName(fn), n)
+			why := confined(val, 0)
+			c.check(why == "", "EXCLUDE-FLOW/ONLY-GATE", cons, P.Pos(ins.Pos()), "the list is only copied, measured, rendered as a flag default or handed to the ignore set",
+				"exclude-checks has a second consumer beside the report gate: the list read here is "+why+" - the excluded codes then decide more than which diagnostics are dropped")
+		})
+	}
+	c.floor("reads of Config.ExcludeChecks", n, 3)
+	// probes
+	covers := func(k, code string) bool {
+		if k == "ALL" || k == code {
+			return true
+		}
+		cat := strings.TrimRight(code, "0123456789")
+		return k == cat
+	}
+	for _, fn := range P.ModFuncs {
+		if strings.HasPrefix(funcPkgPath(fn), modulePath+"/src/util") {
+			continue
+		}
+		allInstrs(fn, func(b *ssa.BasicBlock, ins ssa.Instruction) {
+			call, ok := ins.(*ssa.Call)
+			if !ok || call.Call.StaticCallee() == nil || FuncName(call.Call.StaticCallee()) != "(*util.IgnoreSet).Contains" || len(call.Call.Args) < 3 {
+				return
+			}
+			noPos := P.RootsAll(call.Call.Args[2], func(r ssa.Value) bool {
+				cs, isC := r.(*ssa.Const)
+				return isC && (cs.Value == nil || cs.Value.ExactString() == "0")
+			})
+			if !noPos {
+				return // a gate with a position: IGNORE-GATE / REPORT-GATE
+			}
+			var ks []string
+			okK := true
+			for _, r := range P.Resolve(call.Call.Args[1]) {
+				if s := constString(r); s != "" {
+					ks = append(ks, s)
+				} else {
+					okK = false
+				}
+			}
+			top := fn
+			for top.Parent() != nil {
+				top = top.Parent()
+			}
+			inClosure := map[*ssa.Function]bool{}
+			for _, f := range P.StaticClosure(top) {
+				inClosure[f] = true
+			}
+			var uncovered []string
+			seen := map[string]bool{}
+			for _, s := range c.M.Sites {
+				if s.Fn == nil || !inClosure[s.Fn] || s.Code == "" || seen[s.Code] {
+					continue
+				}
+				for _, k := range ks {
+					if !covers(k, s.Code) {
+						seen[s.Code] = true
+						uncovered = append(uncovered, s.Code)
+						break
+					}
+				}
+			}
+			sort.Strings(uncovered)
+			cons := fmt.Sprintf("%s#Contains(%s, NoPos)", FuncName(fn), strings.Join(ks, "|"))
+			c.check(okK && len(uncovered) == 0, "EXCLUDE-FLOW/PROBE", cons, P.Pos(call.Pos()), "the token asked about covers every code the guarded work can report",
+				fmt.Sprintf("the checker asks whether %v is excluded for the whole project and decides about work that reports %v as well: excluding the one removes the others (a code acts like its category, or one category like another)", ks, uncovered))
+		})
+	}
 }
